@@ -451,7 +451,7 @@ def stepMgr (d : DState) (s : St) (toks : List String) : DState × String :=
   | ["pathsi.next"] =>
     match d.pit with
     | none => keep d s "closed"
-    | some [] => keep { d with pit := none } s "end"
+    | some [] => keep d s "end"      -- an exhausted iterator stays exhausted, however often it is polled
     | some (p :: rest) => keep { d with pit := some rest } s (showIntList p)
   | ["pathsi.close"] => keep { d with pit := none } s "ok"
   | ["size", f] =>
